@@ -8,7 +8,7 @@ Open Scope N_scope.
 
 Section Props.
 Variable strf : N -> N -> comp.
-Variable rtm : N -> N.
+Variable rtm : N -> N -> N.
 Variable c : cfg.
 Hypothesis strf_nonempty : forall k t, strf k t <> [].
 
@@ -16,13 +16,32 @@ Notation lp := (live_path c).
 Notation step := (rot_step strf rtm c).
 Notation run := (rot_run strf rtm c).
 
-(* the ops the all-history theorems cover: bytes written = log_statement.size(); a restart (after the
-   initial constructor) under the Index scheme, in append mode or in mode "w" with remove_old_files *)
+(* the ops the all-history theorems cover: a restart (after the initial constructor) under the Index
+   scheme, in append mode or in mode "w" with remove_old_files; a write: any, when the sink accounts the
+   bytes the base sink writes (c_cntacct c = false, the repaired code) - for the earlier variant that
+   accounts log_statement.size() (D10) only those with bytes written = log_statement.size() *)
 Definition ok_op (o : rop) : Prop :=
   match o with
-  | Write _ _ wr cnt => cnt = wr
+  | Write _ _ wr cnt => c_cntacct c = true -> cnt = wr
   | Restart wm rm _ => is_index c = true /\ (wm = false \/ rm = true)
   end.
+(* the repaired code: no premise on the writes *)
+Lemma ok_op_write_fixed : c_cntacct c = false -> forall id ts wr cnt, ok_op (Write id ts wr cnt).
+Proof. intros E id ts wr cnt H. rewrite E in H. discriminate. Qed.
+
+(* the restarts covered (the clause of ok_op about restarts) *)
+Definition ok_restart (o : rop) : Prop :=
+  match o with
+  | Write _ _ _ _ => True
+  | Restart wm rm _ => is_index c = true /\ (wm = false \/ rm = true)
+  end.
+
+Lemma ok_restart_fixed : c_cntacct c = false -> forall ops, Forall ok_restart ops -> Forall ok_op ops.
+Proof.
+  intros E ops H. induction H as [|o ops Ho _ IH]; constructor; auto.
+  destruct o as [id ts wr cnt | wm rm st]; [apply ok_op_write_fixed; auto | exact Ho].
+Qed.
+
 Definition no_w (o : rop) : Prop := match o with Restart true _ _ => False | _ => True end.
 Definition writes_of (ops : list rop) : list stmt :=
   flat_map (fun o => match o with Write id ts wr _ => [mkStmt id ts wr] | _ => [] end) ops.
@@ -35,7 +54,8 @@ Lemma step_good : forall d0 s o, Good d0 s -> ok_op o -> Good d0 (step s o).
 Proof.
   intros d0 s o [HF HK] OK. constructor; [|apply nodup_keys_step; auto].
   destruct o as [id ts wr cnt | wm rm st]; cbn [rot_step ok_op] in *.
-  - subst cnt. apply write_log_full; auto.
+  - assert (EA : acct c wr cnt = wr) by (unfold acct; destruct (c_cntacct c); auto).
+    rewrite EA. apply write_log_full; auto.
   - destruct OK as [Hidx [W|R]]; subst.
     + apply (restart_append strf rtm c Hidx d0 rm st s HF HK).
     + destruct wm.
@@ -96,7 +116,7 @@ Proof.
   intros d0 s o HG OK. pose proof (step_good d0 s o HG OK) as HG'.
   destruct HG as [HF HK]. pose proof (F_inv c d0 s HF) as HI.
   destruct o as [id ts wr cnt | wm rm st]; cbn [rot_step ok_op writes_of flat_map app] in *.
-  - destruct (write_ghosts id ts wr cnt s) as [X [A [B C]]]. exists X. split; [|intros O _; auto].
+  - destruct (write_ghosts id ts wr (acct c wr cnt) s) as [X [A [B C]]]. exists X. split; [|intros O _; auto].
     pose proof (I_hist c s HI) as H1.
     pose proof (I_hist c _ (F_inv c d0 _ (G_full d0 _ HG'))) as H2. cbn [rot_step] in H2.
     rewrite A, C, <- H1, <- !app_assoc in H2. apply app_inv_head in H2. exact H2.
